@@ -465,6 +465,10 @@ func (m *Manager) lock() {
 				addr.lock()
 			case *scriptAddress:
 				addr.lock()
+			case *witnessScriptAddress:
+				addr.lock()
+			case *taprootScriptAddress:
+				addr.lock()
 			}
 		}
 	}
